@@ -452,7 +452,7 @@ def z5_ir(prog, rep, wanted):
     level (every insecure_memzero call in those functions)."""
     exp = cdb.exports(prog.repo)
     rules = dict(cdb.makefile_rules(prog.repo))
-    outdir = os.path.join(cdb.VERIF, "build", "ll")
+    outdir = os.path.join(cdb.workdir(), "ll-" + prog.config.name)
     os.makedirs(outdir, exist_ok=True)
     for up, funcs in sorted(wanted.items()):
         out = os.path.join(outdir, up.replace("/", "__") + ".ll")
